@@ -99,8 +99,18 @@ pub async fn observe(run: &Run) -> Value {
 
 fn write_key_file(guid: &str, key: &str) {
     crate::seams::untraced(|| {
+        // a key file left by an earlier agent instance lies in a directory that instance had restricted; the script
+        // places one only there (a directory that is absent or unrestricted at this moment gets no file)
+        use std::os::unix::fs::PermissionsExt;
         let dir = "/var/lib/azure-proxy-agent/keys";
-        let _ = std::fs::create_dir_all(dir);
+        if std::fs::metadata(dir).is_err() && !vrt::with(|w| w.events.iter().any(|e| e.kind == "disk")) {
+            // before the agent's first start: the earlier instance's directory, as that instance left it
+            let _ = std::fs::create_dir_all(dir);
+            let _ = std::fs::set_permissions(dir, std::fs::Permissions::from_mode(0o700));
+        }
+        if !std::fs::metadata(dir).map(|m| m.permissions().mode() & 0o777 == 0o700).unwrap_or(false) {
+            return;
+        }
         let body = serde_json::to_vec_pretty(&json!({"authorizationScheme": "Azure-HMAC-SHA256", "guid": guid, "issued": "2027-01-15T08:00:00Z", "key": key})).unwrap();
         let _ = std::fs::write(format!("{}/{}.key", dir, guid), body);
     })
@@ -468,6 +478,11 @@ pub fn gen_c12(seed: u64, tier: &str) -> Value {
                 _ => steps.push(json!({"t": "host_fault", "kind": "status", "fault": {"f": "status", "status": 503}})),
             }
         }
+        if r.chance(1, 12) {
+            // the key directory disappears under the running agent (clean-up tool, operator)
+            steps.push(json!({"t": "rm_path", "path": "/var/lib/azure-proxy-agent/keys"}));
+            steps.push(json!({"t": "host_latch", "mode": "new"}));
+        }
         steps.push(json!({"t": "drain_faults", "max_s": 300}));
         steps.push(json!({"t": "wait_polls", "n": 2, "max_s": 400}));
         let mut conns = Vec::new();
@@ -489,12 +504,25 @@ pub fn gen_c12(seed: u64, tier: &str) -> Value {
     // let the status and telemetry tasks publish (they start one minute after start at the latest)
     steps.push(json!({"t": "sleep", "ms": 200_000}));
     let knobs = gen_knobs(&mut r, false);
+    let mut disk_faults = Vec::new();
+    if r.chance(1, 8) {
+        // creating the key directory fails at start-up (the directory stays absent)
+        disk_faults.push(json!({"op": "mkdir", "path": "azure-proxy-agent/keys", "nth": 1, "errno": *r.pick(&[5i64, 13, 28]), "short": 0}));
+    }
+    if r.chance(1, 10) {
+        // restricting the directory fails at start-up
+        disk_faults.push(json!({"op": *r.pick(&["chmod", "chown"]), "path": "azure-proxy-agent/keys", "nth": 1, "errno": 1, "short": 0}));
+    }
     json!({
-        "scenario": "keeper:C12", "seed": seed, "family": "keeper", "prop": "C12",
+        "scenario": "keeper:C12", "seed": seed, "family": "keeper", "prop": "C12", "disk_faults": disk_faults,
         "knobs": knobs, "procs": procs, "users": users_json(), "steps": steps, "oracles": ["C12"],
         "key_hex_upper": r.chance(1, 2),
         "config": {"pollKeyStatusIntervalInSeconds": 1 + r.below(10)}, "settle_ms": 1000, "faulty": true,
     })
+}
+
+fn run_stat_c12_recreated(run: &mut Run) {
+    run.stat("c12.key_dir_created_or_removed", 1);
 }
 
 fn find(hay: &[u8], needle: &[u8]) -> Option<usize> {
@@ -572,35 +600,34 @@ pub fn check_c12(run: &mut Run) {
     }
     // the key directory is restricted before the first key file is created in it
     let events = vrt::with(|w| w.events.iter().filter(|e| e.kind == "disk").map(|e| e.text.clone()).collect::<Vec<_>>());
-    let mut chown_ok = false;
-    let mut chmod_ok = false;
+    // state, not calls: the directory's mode and owner are sampled by the open seam at the instant of every creation
     let mut first_key_create = false;
+    let mut reported = false;
     for e in events.iter() {
-        if e.starts_with("chown /var/lib/azure-proxy-agent/keys ") && e.ends_with("-> ok") && e.contains("uid=0") {
-            chown_ok = true;
+        if (e.starts_with("mkdir /var/lib/azure-proxy-agent/keys ") && e.ends_with("-> ok")) || (e.starts_with("env-remove /var/lib/azure-proxy-agent") && e.ends_with("-> ok")) {
+            run_stat_c12_recreated(run);
         }
-        if e.starts_with("chmod /var/lib/azure-proxy-agent/keys ") && e.ends_with("-> ok") && e.contains("mode=0o700") {
-            chmod_ok = true;
-        }
-        if e.starts_with("open /var/lib/azure-proxy-agent/keys/") && e.contains("+creat") && (e.contains(".key ") || e.contains(".tmp ")) && !e.contains("status.tag") && !first_key_create {
+        if e.starts_with("open /var/lib/azure-proxy-agent/keys/") && e.contains("+creat") && (e.contains(".key ") || e.contains(".tmp ")) && !e.contains("status.tag") && e.contains("-> ok") {
             first_key_create = true;
-            if !(chown_ok && chmod_ok) {
-                viol.push(("key file created before the key directory was restricted".into(), format!("{} (chown done: {}, chmod 0700 done: {})", e, chown_ok, chmod_ok)));
-            }
-            use std::os::unix::fs::PermissionsExt;
-            if let Ok(md) = std::fs::metadata("/var/lib/azure-proxy-agent/keys") {
-                let _ = md.permissions().mode();
+            let restricted = e.contains(" dir=700/uid0");
+            if !restricted && !reported {
+                reported = true;
+                viol.push(("key file created before the key directory was restricted".into(), e.clone()));
             }
         }
     }
+    // at the end: a directory that holds a key file is root-only (a re-created directory holding only tag files is not judged)
+    let holds_key = crate::seams::untraced(|| std::fs::read_dir("/var/lib/azure-proxy-agent/keys").map(|rd| rd.flatten().any(|e| e.file_name().to_string_lossy().ends_with(".key"))).unwrap_or(false));
     if first_key_create {
+        run.stat("c12.key_files_created", 1);
+    }
+    if holds_key {
         use std::os::unix::fs::PermissionsExt;
         if let Ok(md) = std::fs::metadata("/var/lib/azure-proxy-agent/keys") {
             if md.permissions().mode() & 0o777 != 0o700 {
                 viol.push(("key directory is not mode 0700".into(), format!("mode {:o}", md.permissions().mode() & 0o777)));
             }
         }
-        run.stat("c12.key_files_created", 1);
     }
     run.stat("c12.sinks_scanned", scanned);
     run.stat("c12.bytes_scanned", scanned_bytes);
